@@ -639,6 +639,29 @@ impl Env {
         let server = self.peers[i].server.clone();
         let honest = server.txs_proof(&sim.chain, &req);
         let mut muts = crate::verif::mutate::proof_message_mutants(&honest);
+        // a requested transaction that is NOT on the peer's chain rides along in a filtered block of another, found
+        // transaction: listed in the block (and no longer reported missing), but not covered by the Merkle proof
+        if let packed::LightClientMessageUnion::SendTransactionsProof(m) = honest.to_enum() {
+            let fbs: Vec<packed::FilteredBlock> = m.filtered_blocks().into_iter().collect();
+            let missing: Vec<packed::Byte32> = m.missing_tx_hashes().into_iter().collect();
+            let extra = missing.iter().enumerate().find_map(|(k, h)| sim.chain.tx_id_of(h).map(|t| (k, t)));
+            if let (Some(fb), Some((k, tid))) = (fbs.first(), extra) {
+                let mut txs: Vec<packed::Transaction> = fb.transactions().into_iter().collect();
+                txs.push(sim.chain.txs[tid].view.data());
+                let mut f2 = fbs.clone();
+                f2[0] = fb.clone().as_builder().transactions(txs.pack()).build();
+                let mut miss = missing.clone();
+                miss.remove(k);
+                let m2 = m.clone().as_builder()
+                    .filtered_blocks(packed::FilteredBlockVec::new_builder().set(f2).build())
+                    .missing_tx_hashes(miss.pack())
+                    .build();
+                let wrapped = packed::LightClientMessage::new_builder().set(m2).build();
+                for _ in 0..4 {
+                    muts.push(("tp.surplus-tx".to_string(), wrapped.clone()));
+                }
+            }
+        }
         if let Some(x) = other_last(&sim.chain, &req.last_hash(), rng) {
             let req2 = req.clone().as_builder().last_hash(sim.chain.blocks[x].header.hash()).build();
             let mut s2 = server.clone();
